@@ -106,7 +106,7 @@ pub fn build(family: &str, tier: Tier) -> Vec<Cfg> {
                             c.max_conns = 2;
                             c.budget = 2;
                             c.max_depth = 22;
-                            c.allow.close = true; c.allow.reset = true; c.allow.reorder = true; c.allow.fail_acks = true;
+                            c.allow.close = true; c.allow.reset = true; c.allow.reorder = true; c.allow.fail_acks = true; c.allow.server_disconnect = !v311;
                             c.session_answers = vec![true, false];
                             c.clock = Clock::Late(vec![1]);
                             c.closure = true;
@@ -211,7 +211,7 @@ pub fn build(family: &str, tier: Tier) -> Vec<Cfg> {
                     c.max_conns = if thorough { 3 } else { 2 };
                     c.budget = 2;
                     c.max_depth = 26;
-                    c.allow.close = true; c.allow.reorder = true;
+                    c.allow.close = true; c.allow.reorder = true; c.allow.server_disconnect = !v311;
                     c.session_answers = vec![true, false];
                     c.clock = Clock::Late(vec![1]);
                     out.push(c);
@@ -344,6 +344,7 @@ pub fn build(family: &str, tier: Tier) -> Vec<Cfg> {
                     c.budget = 2;
                     c.max_depth = 18;
                     c.allow.tick_before = true;
+                    c.allow.reorder = true;
                     c.allow.idle_ticks = vec![400];
                     c.clock = Clock::Prompt;
                     out.push(c);
@@ -362,7 +363,7 @@ pub fn build(family: &str, tier: Tier) -> Vec<Cfg> {
                         c.max_conns = 3;
                         c.budget = 2;
                         c.max_depth = if cap == 5 { 80 } else { 24 };
-                        c.allow.close = true; c.allow.submit_disconnect = true;
+                        c.allow.close = true; c.allow.submit_disconnect = true; c.allow.server_disconnect = !v311;
                         c.session_answers = vec![true, false];
                         c.closure = true; c.closure_steps = if cap == 5 { 400 } else { 80 };
                         out.push(c);
@@ -396,6 +397,19 @@ pub fn build(family: &str, tier: Tier) -> Vec<Cfg> {
                     }
                 }
             }
+            // QoS2 publishes under an LRU resolver whose working set exceeds the alias maximum (the PUBREL of a publish whose alias was recycled)
+            for alias_max in [1u16, 2] {
+                let mut c = Cfg::base("alias", &format!("qos2-lru-max{}", alias_max));
+                c.resolver = ResolverKind::Lru(alias_max); c.connack.topic_alias_maximum = Some(alias_max);
+                let plain = |topic: &str, qos: u8| Pkt::Publish(VPublish { topic: topic.into(), qos, ..Default::default() });
+                c.submits = vec![spec("t1-q2", plain("t1", 2)), spec("t2-q0", plain("t2", 0)), spec("t3-q0", plain("t3", 0)), spec("t1-q0", plain("t1", 0)), spec("t2-q1", plain("t2", 1))];
+                c.max_submits = 4;
+                c.max_conns = 1;
+                c.budget = 1;
+                c.max_depth = 26;
+                c.allow.reorder = true;
+                out.push(c);
+            }
             // inbound aliases
             for client_max in [0u16, 2] {
                 let mut c = Cfg::base("alias", &format!("inbound-clientmax{}", client_max));
@@ -414,6 +428,15 @@ pub fn build(family: &str, tier: Tier) -> Vec<Cfg> {
             let permissive = ConnackTemplate::default();
             let retain = |topic: &str| Pkt::Publish(VPublish { topic: topic.into(), qos: 0, retain: true, ..Default::default() });
             let sub_with_id = Pkt::Subscribe(VSubscribe { subscriptions: vec![VSubscription { topic_filter: "f".into(), qos: 1, ..Default::default() }], subscription_identifier: Some(5), ..Default::default() });
+            {
+                // a publish that fits the server's maximum packet size without a topic alias but not with one
+                let mut c = Cfg::base("limits", "alias-size-edge");
+                c.resolver = ResolverKind::Lru(2);
+                c.connack = ConnackTemplate { maximum_packet_size: Some(12), topic_alias_maximum: Some(2), ..Default::default() };
+                c.submits = vec![spec("pub1", publish("t", 1)), spec("pub0", publish("t", 0)), spec("pub1-u", publish("u", 1))];
+                c.max_submits = 3; c.max_conns = 1; c.budget = 0; c.max_depth = 22;
+                out.push(c);
+            }
             for (name, by_conn) in [("restrictive", vec![restrictive.clone()]), ("qos0", vec![qos0.clone()]), ("permissive-then-restrictive", vec![permissive.clone(), restrictive.clone()]), ("restrictive-then-permissive", vec![restrictive.clone(), permissive.clone()])] {
                 for resolver in [ResolverKind::Unset, ResolverKind::Lru(2)] {
                     if !thorough && resolver != ResolverKind::Unset && name != "restrictive" { continue; }
@@ -442,6 +465,7 @@ pub fn build(family: &str, tier: Tier) -> Vec<Cfg> {
                     c.budget = if retries.is_some() { 4 } else { 3 };
                     c.max_depth = if cap == 4 { 60 } else { 26 };
                     c.allow.close = true; c.allow.tick_before = true; c.allow.idle_ticks = vec![300];
+                    c.allow.server_disconnect = retries.is_some(); c.allow.submit_disconnect = retries.is_some() && cap == 4096;
                     c.session_answers = vec![true];
                     c.clock = Clock::Late(vec![1, 700]);
                     out.push(c);
